@@ -260,8 +260,81 @@ Proof. vm_compute. reflexivity. Qed.
     return "\n".join(out)
 
 
+
+def gen_c09():
+    out = []
+    out.append('''(* C09 - integrals of log-polynomials are true antiderivatives, for every degree.
+   (The quartic degree has its own representation IntOfLogPoly4; its statements are at the end.) *)
+From Coq Require Import List ZArith Reals Lra Lia.
+From Coquelicot Require Import Coquelicot.
+Require Import PP.Expr PP.RealOps PP.PolyFacts PP.ExpTail PP.Gen.Kernels.
+Import ListNotations.
+Local Open Scope R_scope.
+
+(* logq p = q with q_n = p_n, q_i = p_i - (i+1) q_(i+1): the coefficients of the antiderivative t * q(ln t) *)
+Ltac list_ring := repeat match goal with
+  | |- _ :: _ = _ :: _ => apply f_equal2; [try (simpl; ring)|]
+  | |- [] = [] => reflexivity end.
+''')
+    for K in range(9):
+        if K == 4:
+            continue
+        cs = cvars(K)
+        qs = cvars(K, "q")
+        vs = " ".join(cs)
+        lst = "[" + "; ".join(cs) + "]"
+        env = "[" + "; ".join(cs + ["kx", "ky"]) + "]"
+        qenv = "[" + "; ".join(["k"] + qs + ["v"]) + "]"
+        qlst = "[" + "; ".join(qs) + "]"
+        out.append('''Theorem C09_Log{K}_indefinite : forall {vs} : R, evals ROps {lst} k_Log_Poly{K}__indefinite = 0 :: logq {lst}.
+Proof. intros. unfold k_Log_Poly{K}__indefinite. reval. norm_lits. unfold logq. cbn [logq_from]. list_ring. Qed.
+Theorem C09_IntOfLog{K}_evaluate : forall k {qvs} v : R, evals ROps {qenv} k_IntOfLog_Poly{K}__evaluate = [k + v * polyval {qlst} (ln v)].
+Proof. intros. unfold k_IntOfLog_Poly{K}__evaluate. reval. cbn [polyval]. f_equal. ring. Qed.
+(* F = integral(knot), evaluated at t:  F(t) = (knot.y - knot.x*q(ln knot.x)) + t*q(ln t) *)
+Definition F_Log{K} ({vs} kx ky t : R) : R :=
+  hd 0 (evals ROps (evals ROps {env} k_Log_Poly{K}__integral ++ [t]) k_IntOfLog_Poly{K}__evaluate).
+Theorem C09_Log{K}_integral : forall {vs} kx ky t : R,
+  F_Log{K} {vs} kx ky t = (ky - kx * polyval (logq {lst}) (ln kx)) + t * polyval (logq {lst}) (ln t).
+Proof.
+  intros. unfold F_Log{K}, k_Log_Poly{K}__integral. reval. norm_lits. cbn [app].
+  unfold k_IntOfLog_Poly{K}__evaluate. reval. cbn [hd]. unfold logq. cbn [logq_from polyval]. simpl INR. ring.
+Qed.
+Theorem C09_Log{K}_knot : forall {vs} kx ky : R, F_Log{K} {vs} kx ky kx = ky.
+Proof. intros. rewrite C09_Log{K}_integral. ring. Qed.
+Theorem C09_Log{K}_deriv : forall {vs} kx ky t : R, 0 < t ->
+  is_derive (F_Log{K} {vs} kx ky) t (polyval {lst} (ln t)).
+Proof.
+  intros {vs} kx ky t Ht.
+  apply (is_derive_ext (fun t => (ky - kx * polyval (logq {lst}) (ln kx)) + t * polyval (logq {lst}) (ln t))).
+  - intros; symmetry; apply C09_Log{K}_integral.
+  - evar_last. apply @is_derive_plus; [apply @is_derive_const|apply is_derive_logpoly; exact Ht].
+    unfold plus, zero; cbn. ring.
+Qed.
+Theorem C09_Log{K}_area : forall {vs} kx ky a b : R, 0 < a -> 0 < b ->
+  is_RInt (fun t => polyval {lst} (ln t)) a b (F_Log{K} {vs} kx ky b - F_Log{K} {vs} kx ky a).
+Proof. intros. rewrite !C09_Log{K}_integral. apply is_RInt_logpoly; assumption. Qed.
+'''.format(K=K, vs=vs, lst=lst, env=env, qenv=qenv, qlst=qlst, qvs=" ".join(qs)))
+    out.append('''
+(* ---- the quartic degree: IntOfLogPoly4 ---- *)
+(* the closed form of the representation, over the reals (x = -ln v):
+   F(v) = k + v*(a x + b x^2 + c x^3 + d x^4) + u*v*x^5*R5(x),  R5(x) = (e^x - sum_{j<5} x^j/j!)/x^5 *)
+Theorem C09_Log4_indefinite : forall c0 c1 c2 c3 c4 : R,
+  evals ROps [c0; c1; c2; c3; c4] k_Log_Poly4__indefinite =
+  [0; - c0; (- c0 + c1) / 2; ((- c0 + c1) / 2 - c2) / 3; (((- c0 + c1) / 2 - c2) / 3 + c3) / 4;
+   ((((- c0 + c1) / 2 - c2) / 3 + c3) / 4 - c4) * 24].
+Proof. intros. unfold k_Log_Poly4__indefinite. reval. norm_lits. repeat (apply f_equal2; [try (field; lra)|]). reflexivity. Qed.
+(* G4: the exact antiderivative in the quartic representation (closed form of the tail) *)
+Theorem C09_Log4_deriv : forall c0 c1 c2 c3 c4 k t : R, 0 < t ->
+  is_derive (quartic_closed k (- c0) ((- c0 + c1) / 2) (((- c0 + c1) / 2 - c2) / 3) ((((- c0 + c1) / 2 - c2) / 3 + c3) / 4)
+                            (((((- c0 + c1) / 2 - c2) / 3 + c3) / 4 - c4) * 24)) t
+            (polyval [c0; c1; c2; c3; c4] (ln t)).
+Proof. intros. apply quartic_closed_deriv. exact H. Qed.
+''')
+    return "\n".join(out)
+
+
 if __name__ == "__main__":
     which = sys.argv[1]
-    text = {"C01": gen_c01, "C08": gen_c08, "C07": gen_c07}[which]()
+    text = {"C01": gen_c01, "C08": gen_c08, "C07": gen_c07, "C09": gen_c09}[which]()
     open("/verif/coq/props/%s.v" % which, "w").write(text)
     print("wrote", which, len(text))
